@@ -1,6 +1,6 @@
 (* C19/Spec.v — the readable specifications the theorems are stated against:
    ledger projections of an event trace, class rank, trace checkers for the
-   throttle and JOIN-rate clauses, the domain of the drain clause. *)
+   throttle and JOIN-rate clauses. *)
 From Coq Require Import List NArith ZArith Bool Lia.
 Import ListNotations.
 Require Import Base.Wire Base.PyStr C19.Model.
@@ -11,10 +11,24 @@ Definition gain1 (ev : event) : list entry := match ev with Accepted e => [e] | 
 Definition delivered1 (ev : event) : list entry := match ev with Delivered e _ _ => [e] | _ => [] end.
 Definition dropped1 (ev : event) : list entry := match ev with Dropped e => [e] | _ => [] end.
 Definition flushed1 (ev : event) : list entry := match ev with Flushed l => l | _ => [] end.
+Definition unsendable1 (ev : event) : list entry := match ev with Unsendable e _ => [e] | _ => [] end.
 Definition accepted (evs : list event) := flat_map gain1 evs.
 Definition delivered (evs : list event) := flat_map delivered1 evs.
 Definition dropped (evs : list event) := flat_map dropped1 evs.
 Definition flushed (evs : list event) := flat_map flushed1 evs.
+Definition unsendable (evs : list event) := flat_map unsendable1 evs.
+
+(* what the chain of filters makes of a message has a wire form (or the chain drops it) *)
+Definition enc_ok (filt : msg -> fres) (m : msg) : bool :=
+  match filt m with FPass => menc m | FRewrite out => menc out | FDrop _ => true end.
+
+(* every Delivered message has a wire form and no Unsendable one has *)
+Definition ev_sound (filt : msg -> fres) (ev : event) : Prop :=
+  match ev with
+  | Delivered e out _ => menc out = true /\ enc_ok filt (snd e) = true
+  | Unsendable e out => menc out = false /\ enc_ok filt (snd e) = false
+  | _ => True
+  end.
 
 (* ---- urgency ---- *)
 Definition rank (k : cls) : nat := match k with High => 0 | Normal => 1 | Low => 2 end.
@@ -41,15 +55,6 @@ Fixpoint joinrate_ok (lim : Z) (last : option Z) (evs : list event) : bool :=
   | Flushed _ :: r => joinrate_ok lim None r
   | _ :: r => joinrate_ok lim last r
   end.
-
-(* ---- the domain of the drain clause ----
-   settings: throttleTime <= 0 and rateLimit.join <= 0;
-   schedule: every takeMsg reads a clock later than the last queue release
-   (and not before the last JOIN), die() is only issued after the end of MOTD;
-   filters: a filter that drops lets the clock advance (pos_delay). *)
-(* op_ok, sched_ok and drain_dom are defined in Model.v (they are extracted: the
-   harness uses drain_dom to tell the known failure class from a new one). *)
-Definition pos_delay (filt : msg -> fres) : Prop := forall m dt, filt m = FDrop dt -> 0 < dt.
 
 (* table sanity used by the JOIN-rate theorem: the rate-limited command is in
    the low-priority class (the only branch of dequeue that tests it) *)
